@@ -1075,7 +1075,14 @@ class Mutator:
         if k == 0:
             s.node.names.insert(self.r.randint(0, len(s.node.names)), self.r.choice(IDENTS))
         elif k == 1 and len(s.node.names) > 1:
-            del s.node.names[self.r.randrange(len(s.node.names))]
+            idx = self.r.randrange(len(s.node.names))
+            try:
+                seg = ast.get_source_segment(self.work.src, s.node) or ''
+            except Exception:
+                seg = '\\\n'
+            if '\\\n' in seg:
+                return None       # deletion in a names list written with a backslash continuation: C13-F10
+            del s.node.names[idx]
         else:
             s.node.names[self.r.randrange(len(s.node.names))] = self.r.choice(IDENTS)
         return 'global_names', f'{type(s.node).__name__}.names'
